@@ -390,12 +390,12 @@ Inductive hop :=
 
 (* h_name: which instance holds the module's name in the store: imports are resolved by name (whether or not the
    embedder still holds a handle), a second instantiation under a registered name is refused *)
-Record hstate := mkH { h_st : state; h_cm : list (option nat); h_inst : list (option nat); h_rt : bool; h_name : list (option nat);
+Record hstate := mkH { h_st : state; h_cm : list (option nat); h_inst : list (option nat); h_rt : bool * bool (* the embedder still holds the runtime / the cache handle *); h_name : list (option nat);
                    h_fl : option nat (* instance of the call in flight *);
                    h_bind : list (list (option nat)) (* per module: the instances its imports were resolved to *) }.
 
 Definition lookup (l : list (option nat)) (m : nat) : option nat := nth m l None.
-Definition hinit (c : bool) (n : nat) : hstate := mkH (init c) (repeat None n) (repeat None n) true (repeat None n) None (repeat [] n).
+Definition hinit (c : bool) (n : nat) : hstate := mkH (init c) (repeat None n) (repeat None n) (true, true) (repeat None n) None (repeat [] n).
 
 Definition resolve (l : list (option nat)) (ps : list (nat * nat)) : option (list (nat * nat)) :=
   fold_right (fun p acc => match lookup l (fst p), acc with
@@ -415,7 +415,7 @@ Definition hstep (mods : list mspec) (h : hstate) (o : hop) : hstate * Z :=
     | None => (h, 1%Z) end in
   match o with
   | HCompile m =>
-      if h_rt h && alive s RUNTIME && open s RUNTIME && alive s ENGINE && open s ENGINE then
+      if fst (h_rt h) && alive s RUNTIME && open s RUNTIME && alive s ENGINE && open s ENGINE then
         let s' := step s OCompile in
         (mkH s' (set_nth (h_cm h) m (Some (length (heap s)))) (h_inst h) (h_rt h) (h_name h) (h_fl h) (h_bind h), 0%Z)
       else (h, 1%Z)
@@ -427,7 +427,7 @@ Definition hstep (mods : list mspec) (h : hstate) (o : hop) : hstate * Z :=
               let sp := mkSpec cm fi ti (ms_nfun ms) (ms_nexp ms) (ms_npriv ms) (ms_nglob ms) (ms_size ms) (ms_elems ms)
                                (ms_nexpg ms) gi in
               let free := match lookup (h_name h) m with Some i => negb (registered s i) | None => true end in
-              if h_rt h && can_instantiate s sp then
+              if fst (h_rt h) && can_instantiate s sp then
                 if free then
                   (mkH (step s (OInstantiate sp)) (h_cm h) (set_nth (h_inst h) m (Some (length (heap s)))) (h_rt h)
                        (set_nth (h_name h) m (Some (length (heap s)))) (h_fl h) (set_nth (h_bind h) m (h_name h)), 0%Z)
@@ -472,8 +472,8 @@ Definition hstep (mods : list mspec) (h : hstate) (o : hop) : hstate * Z :=
       match lookup (h_cm h) m with
       | Some c => (upd_st (step s (OCloseCompiled c)), 0%Z)
       | None => (h, 1%Z) end
-  | HCloseCache => (upd_st (step s OCloseCache), 0%Z)
-  | HCloseRuntime => (upd_st (step s OCloseRuntime), 0%Z)
+  | HCloseCache => if snd (h_rt h) then (upd_st (step s OCloseCache), 0%Z) else (h, 1%Z)
+  | HCloseRuntime => if fst (h_rt h) then (upd_st (step s OCloseRuntime), 0%Z) else (h, 1%Z)
   | HDropMod m =>
       match lookup (h_inst h) m with
       | Some i => (mkH (step s (ODrop i)) (h_cm h) (set_nth (h_inst h) m None) (h_rt h) (h_name h) (h_fl h) (h_bind h), 0%Z)
@@ -482,8 +482,8 @@ Definition hstep (mods : list mspec) (h : hstate) (o : hop) : hstate * Z :=
       match lookup (h_cm h) m with
       | Some c => (mkH (step s (ODrop c)) (set_nth (h_cm h) m None) (h_inst h) (h_rt h) (h_name h) (h_fl h) (h_bind h), 0%Z)
       | None => (h, 1%Z) end
-  | HDropRuntime => (mkH (step s (ODrop RUNTIME)) (h_cm h) (h_inst h) false (h_name h) (h_fl h) (h_bind h), 0%Z)
-  | HDropCache => (upd_st (step s (ODrop CACHE)), 0%Z)
+  | HDropRuntime => (mkH (step s (ODrop RUNTIME)) (h_cm h) (h_inst h) (false, snd (h_rt h)) (h_name h) (h_fl h) (h_bind h), 0%Z)
+  | HDropCache => (mkH (step s (ODrop CACHE)) (h_cm h) (h_inst h) (fst (h_rt h), false) (h_name h) (h_fl h) (h_bind h), 0%Z)
   | HGc => (upd_st (step s OGc), 0%Z)
   end.
 
